@@ -327,7 +327,7 @@ class BaseSelector:
                     best_features = features[:]
 
                 # final selection with all best_features selected
-                if any(best_features):
+                if len(best_features) > 0:
                     best_features = self._select_features(X, y, best_features, self.n_best, dtype)
                     all_best_features += best_features
                     if self.verbose:  # verbose if requested
